@@ -94,7 +94,23 @@ def check_protocol(prog: Program, ctx: Ctx, rule: str, fn: FunctionInfo, *, recu
                    domains: dict[str, set[str]] | None = None) -> int:
     """Check the automaton for every model object constructed in `fn`; returns the number of constructions checked."""
     cfg = cfg_of(fn)
-    infeasible = enum_infeasible(cfg, domains or {})
+    enum_inf = enum_infeasible(cfg, domains or {})
+    current: dict[str, str] = {}
+
+    def infeasible(a: CNode, b: CNode, label: str) -> bool:
+        """Edges impossible for the object under analysis: finite-domain discriminators, and `var.is_<kind>` tests on a variable whose class is known."""
+        if enum_inf(a, b, label):
+            return True
+        if a.kind == "test" and a.expr is not None and label in ("T", "F") and current:
+            from sa.cfg import implied
+
+            for atom, truth in implied(a.expr, label == "T"):
+                t = unparse(atom)
+                for var, kind in current.items():
+                    for k in ("module", "class", "function", "attribute"):
+                        if t == f"{var}.is_{k}" and truth != (k == kind):
+                            return True
+        return False
     evs = event_calls(fn)
     cons = constructions(prog, fn)
     n_checked = 0
@@ -116,6 +132,8 @@ def check_protocol(prog: Program, ctx: Ctx, rule: str, fn: FunctionInfo, *, recu
                     ctx.ob(rule, key(fn, f"{var}:placed-before-announced"), not placed, f"alias `{var}` is attached (set_member) before on_alias fires", where(fn, e.node))
             continue
         kind, kwname = MODEL_KINDS[cls]
+        current.clear()
+        current[var] = kind
         inst = [e for e in evs if e.event == "on_instance" and e.kwargs.get("obj") == var]
         kinst = [e for e in evs if e.event == f"on_{kind}_instance" and e.kwargs.get(kwname) == var]
         ctx.ob(rule, key(fn, f"{var}:on_instance-once"), len(inst) == 1, f"exactly one on_instance(obj={var}) (found {len(inst)})", where(fn, call))
@@ -129,7 +147,7 @@ def check_protocol(prog: Program, ctx: Ctx, rule: str, fn: FunctionInfo, *, recu
             starts = [b for b, lab in cfg.succ[c] if lab != "exc"]
             # announced on every path (a loop back-edge counts as leaving)
             for label, target in (("on_instance", i_nodes), (f"on_{kind}_instance", k_nodes)):
-                leak = cfg.reach(starts, avoid=lambda x, target=target: x in target, normal_only=True)
+                leak = cfg.reach(starts, avoid=lambda x, target=target: x in target, avoid_edge=infeasible, normal_only=True)
                 bad = (cfg.exit in leak) or (c in leak)
                 ctx.ob(rule, key(fn, f"{var}:{label}-on-every-path"), not bad,
                        f"every path from the construction of `{var}` fires {label}" if not bad else f"a path builds `{var}` and leaves without firing {label}",
@@ -140,7 +158,7 @@ def check_protocol(prog: Program, ctx: Ctx, rule: str, fn: FunctionInfo, *, recu
                 ctx.ob(rule, key(fn, f"{var}:placed-before-on_instance"), not unplaced,
                        f"`{var}` is attached to the tree (set_member / overload list / setter) before on_instance fires", where(fn, inst[0].node))
             # on_instance before the kind event
-            early = cfg.reach(starts, avoid=lambda x: x in i_nodes, normal_only=True) & k_nodes
+            early = cfg.reach(starts, avoid=lambda x: x in i_nodes, avoid_edge=infeasible, normal_only=True) & k_nodes
             ctx.ob(rule, key(fn, f"{var}:generic-before-kind-event"), not early, f"on_instance precedes on_{kind}_instance", where(fn, kinst[0].node))
         # node events before construction
         if node_events:
